@@ -72,7 +72,9 @@ contract(CA + '.set', types={'name_id': NID, 'entity_id': 'Str', 'info': 'Dict(S
                    'forall(lambda e: implies(e != entity_id, '
                    'has_key(as_type(self._db[code_of(name_id)], "Dict(Str, Any)"), e) == old(has_key(as_type(self._db[code_of(name_id)], "Dict(Str, Any)"), e)) and '
                    'valmap(as_type(self._db[code_of(name_id)], "Dict(Str, Any)"))[e] == old(valmap(as_type(self._db[code_of(name_id)], "Dict(Str, Any)")))[e]), "Val"))'),
-                  ('caller-info-untouched', 'keyset(info) == old(keyset(info)) and valmap(info) == old(valmap(info))')],
+                  ('caller-info-untouched', 'keyset(info) == old(keyset(info)) and valmap(info) == old(valmap(info))'),
+                  # a subject seen for the first time gets a mapping of its own (no dict the caller holds becomes part of the store)
+                  ('new-subject-mapping-is-fresh', 'implies(not old(has_key(self._db, code_of(name_id))), fresh(self._db[code_of(name_id)]))')],
          raises={},
          modifies=['dict(self._db)', 'dict(self._db[code_of(name_id)])'],
          clauses_from={'C19': ['C19-stored', 'C19-stored-content', 'C19-other-subjects-untouched',
@@ -155,3 +157,27 @@ contract(PO + '.get_entityid', types={'name_id': NID, 'source_id': 'Str', 'check
                           '(not truthy(TS) or not is_int(TS) or NOW >= int_of(TS))',
                  'AttributeError': 'True', 'TypeError': 'True'},
          modifies=[], clauses_from={'C19': ['C19-right-subject-and-source', 'C19-unknown-yields-empty', 'C19-not-expired']})
+# Population.add_information_about_person, verified under the store's object invariant and a well-formed session dict.  Registered as a
+# VARIANT: callers that are verified for other properties (C02: Base.parse_authn_request_response) keep using the weaker ASSUMED
+# contract in c_entity.py, because they cannot establish these preconditions from the assumed AuthnResponse.session_info.
+contract(PO + '.add_information_about_person[typed-store]', variant_of=PO + '.add_information_about_person',
+         types={'session_info': 'Dict(Str, Any)'}, returns=NID,
+         requires=[_DB_OK, 'typed(self.cache._db, "Dict(Str, Any)")',
+                   'has_key(session_info, "name_id") and typed(session_info["name_id"], "%s")' % NID,
+                   'has_key(session_info, "issuer") and is_str(session_info["issuer"])',
+                   'has_key(session_info, "not_on_or_after") and (is_int(session_info["not_on_or_after"]) or is_str(session_info["not_on_or_after"]) '
+                   'or session_info["not_on_or_after"] is None)',
+                   'forall(lambda k: implies(has_key(self.cache._db, k), self.cache._db[k] != session_info and self.cache._db[k] != self.cache._db), "Val")',
+                   'session_info != self.cache._db'],
+         lets={'N0': 'session_info["name_id"]', 'I0': 'str_of(session_info["issuer"])', 'E0': 'session_info["not_on_or_after"]'},
+         ensures=[('C19-stored-for-the-subject-of-the-session', 'result == N0 and HAS_ENTRY(self.cache, as_type(N0, "%s"), I0)' % NID),
+                  ('C19-stored-with-the-session-expiry', 'ENTRY_OF(self.cache, as_type(N0, "%s"), I0)[0] == E0' % NID),
+                  ('C19-other-subjects-untouched',
+                   'forall(lambda k: implies(k != code_of(N0), has_key(self.cache._db, k) == old(has_key(self.cache._db, k)) and '
+                   'valmap(self.cache._db)[k] == old(valmap(self.cache._db))[k]), "Val")'),
+                  # NOT stated: "the caller's session_info dict is untouched" (the defensive dict() copy) -- both solvers answer unknown
+                  # for it; the frame below (only the store's dicts are written) is discharged
+                  ],
+         raises={'Exception': 'True'},
+         modifies=['dict(self.cache._db)', 'dict(self.cache._db[code_of(session_info["name_id"])])'],
+         clauses_from={'C19': ['C19-stored-for-the-subject-of-the-session', 'C19-stored-with-the-session-expiry', 'C19-other-subjects-untouched']})
